@@ -3,12 +3,25 @@
    front end (the check's oracle); the traced schema is tied to the documented mapping by C08, the
    writer to `decode = interp` by the C01 oracle on every case, the reader to `present o decode` by
    C02. Proved here: the composition on the models for primitive columns. *)
-From Verif Require Import Builder Builder_proofs Reader Reader_proofs Doc.
+From Verif Require Import Builder Builder_proofs Reader Reader_proofs Doc Refine_proofs Wf_proofs.
 Local Open Scope nat_scope.
 
 (* Full-strength statement (kept visible) *)
 Definition C04_full (trace_type : Ty -> option (list Field)) (ser : Ty -> Value -> Prop) (roundtrip : list Field -> list Value -> option (list Value)) : Prop :=
   forall ty fields vs, trace_type ty = Some fields -> Forall (ser ty) vs -> roundtrip fields vs = Some vs.
+
+(* write then read on the models, for every schema of the builder core (Boolean, 8 integer types,
+   Utf8 / LargeUtf8, List / LargeList, Struct; nullable or not; any nesting) and every record
+   sequence the writer accepts: every record is in the documented mapping, and a self-describing
+   read of row i of column j returns exactly the presentation of the j-th component of what record
+   i denotes.  This is the composition of C01 (decode o write = interp), C03 (the written arrays
+   are well formed) and C02 (read = present o decode). *)
+Theorem C04_write_then_read : forall fields recs arrs,
+  names_ok (mkField [] (DStruct fields) false) -> Forall text_ok recs -> to_marrow fields recs = Some (Ok arrs) ->
+  exists rows, Forall2 (fun r lv => interp (mkField [] (DStruct fields) false) r = IOk lv) recs (map LStruct rows) /\
+    forall j a f i row, nth_error arrs j = Some a -> nth_error fields j = Some f -> nth_error rows i = Some row ->
+      read a i = of_option (present f (match nth_error row j with Some (_, v) => v | None => LNull end)).
+Proof. exact write_then_read. Qed.
 
 (* writer model then reader model on an integer column of any width, nullable or not: the value
    read at the new row is exactly the value written, for every in-range integer and every
@@ -47,4 +60,5 @@ Example C04_example :
   end.
 Proof. vm_compute. reflexivity. Qed.
 
+Print Assumptions C04_write_then_read.
 Print Assumptions C04_int_roundtrip_partial.
